@@ -187,11 +187,14 @@ Definition or_default (o : option str) : result str :=
   | Some n => Ok n
   | None => match dflt with _ :: _ => Ok dflt | [] => Err ENoDefault end
   end.
-Definition replace (d : smap) (name : str) : result str :=
+(* the schema name [replace] decides on, before quoting *)
+Definition effective (d : smap) (name : str) : result str :=
   bind (if d_has d name then Ok (d_get d name)
         else if str_eqb name none_name then Err ENoneRemoved
         else Ok (Some name))
-       (fun eff => bind (or_default eff) (fun n => Ok (quote None n))).
+       or_default.
+Definition replace (d : smap) (name : str) : result str :=
+  bind (effective d name) (fun n => Ok (quote None n)).
 Definition render_translates (inc : bool) (d : smap) (text : str) : result str :=
   if has_none d && negb inc then Err ENoneAdded else scan (replace d) text.
 
@@ -232,14 +235,14 @@ Definition exec_ddl (sid : nat) (m : smap) : result str :=
   if is_empty m then Ok (compile_plain (stmts sid))
   else bind (compile_sym (has_none m) (stmts sid)) (render_translates (has_none m) m).
 (* _exec_default_clause_element: select(default).compile(dialect=...) - no map - then _execute_scalar
-   renders with the parent statement's preparer when the option is present *)
+   renders that text with the parent statement's preparer when the option is present.
+   _init_compiled runs _process_execute_defaults BEFORE it renders the parent statement, so the default's
+   SELECT reaches the cursor first (this is the text observed here) *)
 Definition exec_scalar_default (c : cache) (sid dsid : nat) (m : smap) : cache * result str :=
   match get_compiled c sid m with
   | Err e => (c, Err e)
   | Ok (c', None) => (c', Ok (compile_plain (stmts dsid)))
-  | Ok (c', Some (inc, t)) =>
-      (c', bind (render_translates inc m t)
-                (fun _ => render_translates inc m (compile_plain (stmts dsid))))
+  | Ok (c', Some (inc, t)) => (c', render_translates inc m (compile_plain (stmts dsid)))
   end.
 
 Definition step (c : cache) (o : op) : cache * option (result str) :=
@@ -313,6 +316,13 @@ Definition spec_exec (inc : bool) (m : smap) (s : stmt) : result str :=
   else if has_none m && negb inc then Err ENoneAdded
   else bind (direct_inc inc m s) (fun s' => Ok (compile_plain s')).
 
+(* the pre-executed default: never translated *)
+Definition spec_scalar_default (inc : bool) (m : smap) (s ds : stmt) : result str :=
+  if is_empty m then Ok (compile_plain ds)
+  else if bracketed s then Err EBracket
+  else if has_none m && negb inc then Err ENoneAdded
+  else Ok (compile_plain ds).
+
 (* which compilation governs statement [sid] after the operations [pre]: the first successful one with
    a non-empty map since the statement was last evicted *)
 Definition gov_step (sid : nat) (g : option bool) (o : op) : option bool :=
@@ -367,6 +377,12 @@ Definition stmt_ok (s : stmt) : bool := marker_free true s && marker_free false 
 (* no falsy target: the region where "default schema" and "no schema" need not be told apart *)
 Definition targets_truthy (m : smap) : bool :=
   forallb (fun kv => match truthy (snd kv) with Some _ => true | None => false end) m.
+
+(* the map translates no reference of the statement *)
+Definition untranslated (m : smap) (s : stmt) : bool :=
+  forallb (fun i => match i with
+                    | Sch r => negb (r_map r) || negb (has_key (r_name r) m)
+                    | Txt _ => true end) s.
 
 (* per operation: the guards of the statement executed with this map *)
 Definition op_ok (o : op) : bool :=
